@@ -41,11 +41,14 @@ fn variant(
     let f = d.open(file, ben).set_pos(off as u64);
     let mut sink = wrap_sink(f, cap);
     let declared = cfg.declare_total.then(|| total_for(kind, pcm));
+    // a byte writer may also be flushed between its write calls (every third variant)
+    crate::world::FLUSH_BETWEEN.with(|f| f.set((chunks.len() + off + cap) % 3 == 0));
     let r = catch_unwind(AssertUnwindSafe(|| {
         let r = encode(&mut sink, cfg, pcm, kind, chunks, declared, EndMode::Finalize, tail, &mut || {});
         let fl = sink.flush();
         (r, fl)
     }));
+    crate::world::FLUSH_BETWEEN.with(|f| f.set(false));
     ctx.extra_events += d.seq();
     let fired = d.faults_in_run() > 0;
     ctx.eval_fp(mix(d.fp(), kind as u64), true);
